@@ -203,7 +203,7 @@ def find_function_defs(src, name, sig=None):
                 off += len(ln) + 1
                 keep_from = off
             else:
-                off += len(ln) + 1
+                break
         s = s + min(keep_from, len(seg))
         s = _skip_ws_comments(src, s)
         if sig is not None and not re.search(sig, re.sub(r"\s+", " ", params)):
@@ -540,8 +540,8 @@ def run_harness(ub, h):
                 res.setdefault("externals_arbitrary", []).append(callee)
                 continue
             if r["status"] == "FAILURE":
-                res.update(status="undecided", reason="reached external function without body or contract: %s (add a stub/contract or list it under allow_no_body)" % callee)
-                return res
+                res.setdefault("_missing", []).append(callee)
+            continue
         if r["status"] not in ("SUCCESS", "FAILURE", "UNKNOWN"):
             res.update(status="undecided", reason="obligation %s has status %s" % (r["property"], r["status"]))
             return res
@@ -551,6 +551,9 @@ def run_harness(ub, h):
             o["trace_len"] = len(tr)
             fails.append(o)
         obl.append(o)
+    if res.get("_missing"):
+        res.update(status="undecided", reason="reached external functions without body or contract: %s (add stubs/contracts or list them under allow_no_body)" % ", ".join(sorted(set(res["_missing"]))))
+        return res
     # cbmc reports UNKNOWN for obligations that lie behind a failed one on every path; without any
     # failure an UNKNOWN means the run is incomplete
     unknown = [o for o in obl if o["status"] == "UNKNOWN"]
@@ -772,6 +775,12 @@ def check_property(prop, tier, only_unit=None, only_harness=None):
                 if len(samples) < 12:
                     samples.append({"unit": r["unit"], "harness": r["harness"], "obligation": o["name"],
                                     "description": o["desc"], "location": "%s:%s" % (o["file"], o["line"]), "status": o["status"]})
+            # obligations covered by a listed known finding are reported separately, not as discharged or open
+            kf_names = set(o["name"] for o in r["failures"] if not o["internal"] and match_known(known, prop, r["unit"], r["harness"], o))
+            if kf_names and not is_bounded:
+                n_obl -= len(kf_names)
+            row["known_finding_obligations"] = sorted(kf_names)
+            row["obligations"] -= len(kf_names)
             for o in r["failures"]:
                 if o["internal"]:
                     undecided.append("%s/%s: instrumentation-internal obligation failed: %s" % (r["unit"], r["harness"], o["name"]))
